@@ -37,6 +37,10 @@ MOUNTS = {
     "v5/shared.rs": [("verif_v5_shared", "h_v5_shared.rs")],
     "v3/shared.rs": [("verif_v3_shared", "h_v3_shared.rs")],
 }
+# mounted in the REPLAY flavour only (the Kani flavour compiles items extracted from these files)
+MOUNTS_REPLAY_ONLY = {
+    "io.rs": [("verif_io_state", "h_io_state.rs")],
+}
 
 # connection-state slice: the std `VecDeque` import of these files is renamed and the fixed-capacity
 # model (kani/harness/support/mdeque.rs) is imported under the original name. This is the ONE
@@ -79,7 +83,7 @@ SLICE_FILES = [
     "v5/codec/packet/connect.rs", "v5/codec/packet/disconnect.rs",
     "v5/codec/packet/pubacks.rs", "v5/codec/packet/publish.rs",
     "v5/codec/packet/subscribe.rs",
-    "payload.rs", "v5/shared.rs", "v3/shared.rs",
+    "payload.rs", "v5/shared.rs", "v3/shared.rs", "io.rs",
 ]
 
 
@@ -90,7 +94,10 @@ def sha(path):
 
 def _append_mounts(dst_src, cfg):
     appended = {}
-    for rel, mods in MOUNTS.items():
+    mounts = dict(MOUNTS)
+    if cfg == "verif_replay":
+        mounts.update(MOUNTS_REPLAY_ONLY)
+    for rel, mods in mounts.items():
         p = os.path.join(dst_src, rel)
         if not os.path.exists(p):
             raise SystemExit(f"weave: {rel} no longer exists in {REPO}/src - harness mount point lost")
@@ -129,6 +136,70 @@ def _sync_tree(src, dst):
             rel = os.path.relpath(sp, src)
             want.add(rel)
     return want
+
+
+def extract_item(text, start_re, what):
+    """the source text of ONE item of a file: from the line matching start_re to the brace that closes
+    the first `{` opened after it (the repository is rustfmt-formatted; braces inside string literals
+    do not occur in the extracted items - the count is asserted to return to zero)"""
+    m = re.search(start_re, text, re.M)
+    if not m:
+        raise SystemExit(f"weave: item `{what}` not found in its source file - extraction anchor lost")
+    i = text.index("{", m.end() - 1) if text[m.end() - 1] != "{" else m.end() - 1
+    depth = 0
+    k = i
+    while k < len(text):
+        c = text[k]
+        if c == "{":
+            depth += 1
+        elif c == "}":
+            depth -= 1
+            if depth == 0:
+                return text[m.start():k + 1]
+        k += 1
+    raise SystemExit(f"weave: unbalanced braces while extracting `{what}`")
+
+
+# io.rs cannot be compiled as a whole against models (ntex-io, ntex-rt, timers, pipelines): the
+# response re-sequencing state and its step function are extracted VERBATIM, item by item
+IO_STATE_ITEMS = [
+    (r"^struct DispatcherState<P, U>", "struct DispatcherState"),
+    (r"^enum ServiceResult<T>", "enum ServiceResult"),
+    (r"^impl<T> ServiceResult<T>", "impl ServiceResult"),
+    (r"^pub\(crate\) enum IoDispatcherError<S>", "enum IoDispatcherError"),
+    (r"^impl<P, U> DispatcherState<P, U>", "impl DispatcherState (handle_result)"),
+]
+IO_STATE_HEADER = """// GENERATED by lib/weave.py on every run: items extracted verbatim from src/io.rs (see IO_STATE_ITEMS);
+// only this header (imports; VecDeque = fixed-capacity model) is not repository text.
+use std::{cell::Cell, cell::RefCell, future::Future, pin::Pin, rc::Rc};
+use crate::mdeque::VecDeque;
+use ntex_codec::{Decoder, Encoder};
+use ntex_io::IoRef;
+use ntex_service::{PipelineCall, Service};
+use ntex_util::task::LocalWaker;
+use crate::error::{DecodeError, DispatcherError, EncodeError, ProtocolError};
+
+type Request<U> = <U as Decoder>::Item;
+type Response<U> = <U as Encoder>::Item;
+type Queue<T, E> = RefCell<VecDeque<ServiceResult<Result<T, E>>>>;
+
+"""
+
+
+def gen_io_state(stage):
+    with open(os.path.join(REPO, "src", "io.rs")) as f:
+        txt = f.read()
+    parts = [extract_item(txt, rx, what) for rx, what in IO_STATE_ITEMS]
+    # the three type aliases are asserted to be what the header says
+    for alias in ("type Request<U> = <U as Decoder>::Item;", "type Response<U> = <U as Encoder>::Item;",
+                  "type Queue<T, E> = RefCell<VecDeque<ServiceResult<Result<T, E>>>>;"):
+        if alias not in txt:
+            raise SystemExit(f"weave: io.rs no longer declares `{alias}`")
+    body = IO_STATE_HEADER + "\n\n".join(parts) + "\n"
+    body += '\n#[cfg(kani)]\n#[path = "' + os.path.join(HARN, "h_io_state.rs") + '"]\nmod verif_io_state;\n'
+    with open(os.path.join(stage, "gen_io_state.rs"), "w") as f:
+        f.write(body)
+    return {what: hashlib.sha256(p.encode()).hexdigest() for (rx, what), p in zip(IO_STATE_ITEMS, parts)}
 
 
 def weave_kani():
@@ -177,6 +248,7 @@ def weave_kani():
     gen = "// extracted verbatim from src/v5/mod.rs by weave.py\nuse std::num::NonZeroU16;\npub(crate) " + m.group(0) + "\n"
     with open(os.path.join(stage, "gen_v5_consts.rs"), "w") as f:
         f.write(gen)
+    extracted = gen_io_state(stage)
     # the real LocalWaker source (std-only file) from the registry version pinned by Cargo.lock
     ver = None
     with open(os.path.join(REPO, "Cargo.lock")) as f:
@@ -227,6 +299,7 @@ def weave_kani():
                            if os.path.exists(os.path.join(REPO, "src", rel))},
         "appended_lines": appended,
         "substitutions": substituted,
+        "extracted_items_sha256": {"io.rs": extracted},
     }
     return meta
 
